@@ -151,9 +151,9 @@ Proof.
     rewrite (H8 a Ha), (H8 b Hb). reflexivity.
 Qed.
 
-Definition bytes_ok (l : list N) : Prop := Forall (fun b => (b < 256)%N) l.
+Definition bc_bytes_ok (l : list N) : Prop := Forall (fun b => (b < 256)%N) l.
 
-Lemma bc_bits_inj : forall a b, bytes_ok a -> bytes_ok b -> bc_bits a = bc_bits b -> a = b.
+Lemma bc_bits_inj : forall a b, bc_bytes_ok a -> bc_bytes_ok b -> bc_bits a = bc_bits b -> a = b.
 Proof.
   induction a as [|x a IH]; intros [|y b] Ha Hb E.
   - reflexivity.
@@ -210,10 +210,10 @@ Proof.
   destruct n; [exact H|]. inversion H; subst. simpl. auto.
 Qed.
 
-Lemma set_bytes_ok : forall (l : list N) i v, bytes_ok l -> (v < 256)%N ->
-  bytes_ok (firstn i l ++ v :: skipn (S i) l).
+Lemma set_bytes_ok : forall (l : list N) i v, bc_bytes_ok l -> (v < 256)%N ->
+  bc_bytes_ok (firstn i l ++ v :: skipn (S i) l).
 Proof.
-  intros l i v Hl Hv. unfold bytes_ok in *. apply Forall_app. split.
+  intros l i v Hl Hv. unfold bc_bytes_ok in *. apply Forall_app. split.
   - apply Forall_firstn'; assumption.
   - constructor; [exact Hv|]. apply Forall_skipn'; assumption.
 Qed.
@@ -301,7 +301,7 @@ Qed.
 (* ------------------------------------------------------------------ *)
 Definition copied (dst src : list N) (P Q c : nat) (dst' : list N) : Prop :=
   length dst' = length dst /\
-  (bytes_ok dst -> bytes_ok src -> bytes_ok dst') /\
+  (bc_bytes_ok dst -> bc_bytes_ok src -> bc_bytes_ok dst') /\
   forall i, nth i (bc_bits dst') false =
             if (P <=? i) && (i <? P + c) then nth (i - P + Q) (bc_bits src) false
             else nth i (bc_bits dst) false.
@@ -404,7 +404,7 @@ Proof.
   assert (Hx : length (firstn sz (skipn si src)) = sz) by (rewrite firstn_length, skipn_length; lia).
   split; [|split].
   - rewrite <- Hx at 2. apply splice_length. lia.
-  - intros Hbd Hbs. unfold bytes_ok in *. apply Forall_app. split; [apply Forall_firstn'; exact Hbd|].
+  - intros Hbd Hbs. unfold bc_bytes_ok in *. apply Forall_app. split; [apply Forall_firstn'; exact Hbd|].
     apply Forall_app. split; [apply Forall_firstn', Forall_skipn'; exact Hbs | apply Forall_skipn'; exact Hbd].
   - intros i. rewrite !bc_bits_app, bc_bits_firstn, bc_bits_firstn, !bc_bits_skipn.
     assert (Hy : length (firstn (8 * sz) (skipn (8 * si) (bc_bits src))) = 8 * sz).
@@ -485,8 +485,8 @@ Theorem bit_copy_spec : forall dst dst_bit src src_bit n,
                    ++ firstn (N.to_nat n) (skipn (N.to_nat src_bit) (bc_bits src))
                    ++ skipn (N.to_nat (dst_bit + n)) (bc_bits dst) /\
     length dst' = length dst /\
-    (bytes_ok dst -> bytes_ok src -> bytes_ok dst') /\
-    (bytes_ok dst -> bytes_ok src -> bc_bit_copy_slow dst dst_bit src src_bit n = BC_ok dst').
+    (bc_bytes_ok dst -> bc_bytes_ok src -> bc_bytes_ok dst') /\
+    (bc_bytes_ok dst -> bc_bytes_ok src -> bc_bit_copy_slow dst dst_bit src src_bit n = BC_ok dst').
 Proof.
   intros dst dst_bit src src_bit n Hd Hs.
   destruct (bc_fast_copied dst dst_bit src src_bit n Hd Hs) as (dst' & Hrun & Hc).
